@@ -1,31 +1,16 @@
-/* std::list support functions (libstdc++ std::__detail::_List_node_base), real node layout {next, prev}.
- * Referenced with models=['list.c']. */
+/* std::list support functions of libstdc++ (list.cc): node hooking with the real node layout {next, prev}. */
 #include <stdint.h>
-struct ll_lnode { struct ll_lnode *next, *prev; };
-/* insert this node before pos */
+struct lnb { struct lnb *next, *prev; };
 void _ZNSt8__detail15_List_node_base7_M_hookEPS0_(void *self, void *pos) {
-  struct ll_lnode *n = self, *p = pos;
+  struct lnb *n = self, *p = pos;
   n->next = p;
   n->prev = p->prev;
   p->prev->next = n;
   p->prev = n;
 }
 void _ZNSt8__detail15_List_node_base9_M_unhookEv(void *self) {
-  struct ll_lnode *n = self;
-  struct ll_lnode *nx = n->next, *pv = n->prev;
+  struct lnb *n = self;
+  struct lnb *nx = n->next, *pv = n->prev;
   pv->next = nx;
   nx->prev = pv;
-}
-/* move [first, last) before this node */
-void _ZNSt8__detail15_List_node_base11_M_transferEPS0_S1_(void *self, void *first, void *last) {
-  struct ll_lnode *pos = self, *f = first, *l = last;
-  if (pos != l) {
-    l->prev->next = pos;
-    f->prev->next = l;
-    pos->prev->next = f;
-    struct ll_lnode *tmp = pos->prev;
-    pos->prev = l->prev;
-    l->prev = f->prev;
-    f->prev = tmp;
-  }
 }
